@@ -73,27 +73,29 @@ def buildable_facets(ctx: Ctx, rs: RuleSet, rule: str, only=None):
   for n in g.nodes():
     st = g.stmt[n]
     if g.kind[n] == 'if':
-      t = unparse(st.test)
+      t = unparse(roles.deref_deep(f, st.test))
       if 'get_callable(' in t and old_p in t and new_p in t:
         facets['callable'].append(n)
       if f'{old_p}.__argument_tags__' in t and f'{new_p}.__argument_tags__' in t:
         facets['tags'].append(n)
     elif g.kind[n] == 'for':
-      it = unparse(st.iter)
+      it = unparse(roles.deref_deep(f, st.iter))
       if it == f'{old_p}.__arguments__':
         facets['old-arguments'].append(n)
       elif it == f'{new_p}.__arguments__':
         facets['new-arguments'].append(n)
     elif g.kind[n] == 'stmt' and any(
-        isinstance(e, ast.comprehension) and unparse(e.iter) in (
-            f'{old_p}.__arguments__', f'{new_p}.__arguments__')
+        isinstance(e, ast.comprehension) and unparse(
+            roles.deref_deep(f, e.iter)) in (
+                f'{old_p}.__arguments__', f'{new_p}.__arguments__')
         for e in cfg_lib.walk_node(g, n)):
       # the enumeration written as a comprehension / generator expression
       for e in cfg_lib.walk_node(g, n):
         if isinstance(e, ast.comprehension):
-          if unparse(e.iter) == f'{old_p}.__arguments__':
+          it_ = unparse(roles.deref_deep(f, e.iter))
+          if it_ == f'{old_p}.__arguments__':
             facets['old-arguments'].append(n)
-          elif unparse(e.iter) == f'{new_p}.__arguments__':
+          elif it_ == f'{new_p}.__arguments__':
             facets['new-arguments'].append(n)
     elif g.kind[n] == 'stmt' and any(
         isinstance(e, ast.Call) and unparse(e.func).endswith(
@@ -196,16 +198,24 @@ def run(ctx: Ctx, rs: RuleSet, tier: str):
            ctx.loc(ac, ac.node))
   vc = ctx.func(f'{D}._validate_changes')
   accepted = None
-  g = ctx.cfg(vc)
-  for n in g.nodes():
-    if g.kind[n] == 'if':
-      t = g.stmt[n].test
-      if isinstance(t, ast.UnaryOp) and isinstance(t.op, ast.Not):
-        names = isinstance_names(t.operand, lambda e: ctx.const(e, vc))
-        r = g.reach([x for x, lab in g.succ[n] if lab == 'true'],
-                    labels=cfg_lib.NO_EXC)
-        if names and g.exit not in r:
-          accepted = names
+  # the validating function, or a per-change helper it calls with the change
+  vgroup = [vc]
+  for c_ in ctx.calls(vc):
+    h_ = p.funcs.get(p.resolve(c_.func, vc) or '')
+    if h_ is not None and not h_.is_lambda and h_.module is vc.module and (
+        h_.cls is None) and h_ not in vgroup:
+      vgroup.append(h_)
+  for vf in vgroup:
+    g = ctx.cfg(vf)
+    for n in g.nodes():
+      if g.kind[n] == 'if':
+        t = g.stmt[n].test
+        if isinstance(t, ast.UnaryOp) and isinstance(t.op, ast.Not):
+          names = isinstance_names(t.operand, lambda e, vf=vf: ctx.const(e, vf))
+          r = g.reach([x for x, lab in g.succ[n] if lab == 'true'],
+                      labels=cfg_lib.NO_EXC)
+          if names and g.exit not in r and names & set(ops):
+            accepted = names
   rs.check(accepted == set(ops), rule, f'{vc.qualname}:accepted',
            f'validated operation types {sorted(accepted or [])}',
            ctx.loc(vc, vc.node))
@@ -294,19 +304,23 @@ def run(ctx: Ctx, rs: RuleSet, tier: str):
   ad = ctx.func(f'{D}.apply_diff')
   g = ctx.cfg(ad)
   dparam = ad.params[0]
+  # the parameter is read once, by copy.deepcopy; whatever is done afterwards
+  # works on the copy (held under the same or another name)
   copies = {n for n in g.nodes() if isinstance(g.stmt[n], ast.Assign) and
             isinstance(g.stmt[n].value, ast.Call) and
             p.resolve(g.stmt[n].value.func, ad) == 'copy.deepcopy' and
-            unparse(g.stmt[n].value.args[0]) == dparam and
-            unparse(g.stmt[n].targets[0]) == dparam}
+            unparse(g.stmt[n].value.args[0]) == dparam}
+  rebinding = {n for n in copies
+               if unparse(g.stmt[n].targets[0]) == dparam}
   uses = [n for n in g.nodes() if n not in copies and any(
       isinstance(e, ast.Name) and e.id == dparam and isinstance(e.ctx, ast.Load)
       for e in cfg_lib.walk_node(g, n))]
   rs.check(bool(copies) and all(
-      g.dominated_by(u, copies, labels=cfg_lib.NO_EXC) for u in uses), rule,
+      g.dominated_by(u, rebinding, labels=cfg_lib.NO_EXC) for u in uses), rule,
            f'{ad.qualname}:deepcopy',
-           f'`{dparam} = copy.deepcopy({dparam})` dominates every other use '
-           f'of the diff ({len(uses)} uses)', ctx.loc(ad, ad.node))
+           f'copy.deepcopy({dparam}) is the only read of the caller\'s diff '
+           f'({len(uses)} later uses, all of the rebound copy)',
+           ctx.loc(ad, ad.node))
   calls = [p.resolve(c.func, ad) for c in ctx.calls(ad)]
   rs.check(f'{D}.resolve_diff_references' in calls and
            f'{D}._apply_changes' in calls, rule, f'{ad.qualname}:pipeline',
@@ -324,26 +338,46 @@ def run(ctx: Ctx, rs: RuleSet, tier: str):
            f'{ac.qualname}:validate-first',
            'all changes are validated before the first one is applied',
            ctx.loc(ac, ac.node))
-  g = ctx.cfg(vc)
   ok = False
-  for n in g.nodes():
-    if g.kind[n] == 'if':
-      t = g.stmt[n].test
-      # `not <op>.target` directly or through a local holding it; the
-      # branch records an error in the list that is raised at the end
-      tvars = roles.assigned_from(vc, lambda e: isinstance(
-          e, ast.Attribute) and e.attr == 'target')
-      err_lists = roles.assigned_from(vc, lambda e: isinstance(
-          e, ast.List) and not e.elts)
-      if isinstance(t, ast.UnaryOp) and isinstance(t.op, ast.Not) and (
+  err_lists = roles.assigned_from(vc, lambda e: isinstance(
+      e, ast.List) and not e.elts)
+  for vf in vgroup:
+    gv_ = ctx.cfg(vf)
+    tvars = roles.assigned_from(vf, lambda e: isinstance(
+        e, ast.Attribute) and e.attr == 'target')
+    for n in gv_.nodes():
+      if gv_.kind[n] != 'if':
+        continue
+      t = gv_.stmt[n].test
+      # `not <op>.target` directly or through a local holding it
+      if not (isinstance(t, ast.UnaryOp) and isinstance(t.op, ast.Not) and (
           (isinstance(t.operand, ast.Name) and t.operand.id in tvars) or
           (isinstance(t.operand, ast.Attribute) and
-           t.operand.attr == 'target')):
-        body = g.stmt[n].body
-        ok = any(isinstance(s, ast.Expr) and isinstance(s.value, ast.Call) and
-                 isinstance(s.value.func, ast.Attribute) and
-                 s.value.func.attr == 'append' and
-                 unparse(s.value.func.value) in err_lists for s in body)
+           t.operand.attr == 'target'))):
+        continue
+      body = gv_.stmt[n].body
+      if vf is vc:
+        # the branch records an error in the list that is raised at the end
+        ok = ok or any(
+            isinstance(s_, ast.Expr) and isinstance(s_.value, ast.Call) and
+            isinstance(s_.value.func, ast.Attribute) and
+            s_.value.func.attr == 'append' and
+            unparse(s_.value.func.value) in err_lists for s_ in body)
+      else:
+        # a per-change helper answers with a message; the validating function
+        # appends every answer that is not None to the error list
+        says = any(isinstance(s_, ast.Return) and s_.value is not None and not (
+            isinstance(s_.value, ast.Constant) and s_.value.value is None)
+                   for s_ in body)
+        answers = roles.assigned_from(vc, lambda e, vf=vf: isinstance(
+            e, ast.Call) and p.resolve(e.func, vc) == vf.qualname)
+        recorded = any(
+            isinstance(c_, ast.Call) and isinstance(
+                c_.func, ast.Attribute) and c_.func.attr == 'append' and
+            unparse(c_.func.value) in err_lists and c_.args and unparse(
+                c_.args[0]) in answers for c_ in ctx.calls(vc))
+        ok = ok or (says and recorded)
+  g = ctx.cfg(vc)
   raises = [n for n in g.nodes() if isinstance(g.stmt[n], ast.Raise)]
   rs.check(ok and len(raises) >= 2, rule, f'{vc.qualname}:root',
            'a change whose target is the root is an error; collected errors '
